@@ -183,6 +183,7 @@ def run_job(job, workdir):
     if results is None:
         res["reason"] = "no result section (rc=%d): %s" % (rc, alltext[-2000:])
         return res
+    env_failed = []  # failed checks that belong to the environment (capacity of a stub, a modelling limit), not to /repo's code
     reach_failed = False
     reach_missed = []  # every `reach[:label]` point of a harness must be reachable (each must FAIL)
     unwinding_failed = False
@@ -207,6 +208,8 @@ def run_job(job, workdir):
         elif ob["status"] == "FAILURE":
             if "unwinding assertion" in desc or "recursion unwinding" in desc:
                 unwinding_failed = True
+            elif not any(re.search(rx, desc) for rx in job.known) and _is_env_check(desc, ob["id"], sl.get("file", "")):
+                env_failed.append("%s (%s)" % (desc, ob.get("loc", "")))
             else:
                 ob["cex"] = _cex(r.get("trace", []), job.entry)
                 failed.append(ob)
@@ -224,6 +227,11 @@ def run_job(job, workdir):
     if unwinding_failed:
         res["reason"] = "unwinding assertion failed (bound too small)"
         return res
+    if env_failed:
+        # the run left the envelope the stubs / harness model (a capacity, a construct that is not modelled): whatever else
+        # failed may be a consequence of that, so nothing is reported as a violation
+        res["reason"] = "ENVIRONMENT-LIMIT: " + "; ".join(env_failed[:3])
+        return res
     if reach_failed and reach_missed and not failed:
         # (partial vacuity matters for a pass only: an obligation that was decided false stays a violation)
         res["status"] = "undecided"
@@ -240,6 +248,28 @@ def run_job(job, workdir):
     res["status"] = "fail" if failed else "pass"
     res["failed"] = failed
     return res
+
+
+ENV_DESC = re.compile(r"^(stub|libc model|harness): .*(capacity|in range|modelled|outside the table|in the table|arena|inside the script|nesting depth|path depth|"
+                      r"insert at end|takes .begin|used with the format|reads the text|looks for|log capacity)")
+AUTO_CHECK = re.compile(r"[.](array_bounds|pointer_dereference|pointer_arithmetic|overflow|division-by-zero|undefined-shift|pointer_primitives|conversion)[.][0-9]+$")
+
+
+def _is_env_check(desc, prop_id, file):
+    """True for a failed check that guards the environment rather than /repo's code: a stub's capacity / modelling limit, or
+    an automatically generated safety check located in a hand-written stub / harness file (the slices of /repo live in the
+    work directory as generated .inc files and are NOT covered by this)."""
+    if ENV_DESC.search(desc):
+        return True
+    # automatically generated safety checks inside the harness / wrapper glue (functions h_*, w<id>_*, wx_*: they run before and
+    # after the real code): an overflow of the glue's own tables.  Checks inside stub CLASS methods are not covered - a null
+    # `this` there is a consequence of what the real code did (e.g. C20-KF4).
+    if AUTO_CHECK.search(prop_id) and file and re.match(r"^(h_|w[0-9a-z]*_|wx_)", prop_id):
+        f = os.path.realpath(file)
+        for d in ("contracts", "stubs"):
+            if f.startswith(os.path.join(VERIF, d) + os.sep):
+                return True
+    return False
 
 
 def _cex(trace, entry):
